@@ -315,5 +315,34 @@ Proof. intros t. repeat split. Qed.
 Theorem C01_browsename_second_colon_refuted :
   split_browsename (lit "1:Var:colon") [(0%Z, 0%Z); (1%Z, 1%Z)] = Ok (lit "Var", Some 1%Z).
 Proof. reflexivity. Qed.
-Theorem C01_int8_wrap_refuted : cast_attr (lit "AccessLevel") (lit "255") [] [] = Ok (AInt (-1)%Z).
+(* the integer attributes: every value of the schema's type is reported as itself *)
+Definition int_attr_range (k : str) (z : Z) : bool :=
+  if str_eqb k (lit "ValueRank") then (- 2 ^ 31 <=? z)%Z && (z <? 2 ^ 31)%Z
+  else if str_eqb k (lit "AccessLevel") then (0 <=? z)%Z && (z <? 2 ^ 32)%Z
+  else if str_eqb k (lit "EventNotifier") then (0 <=? z)%Z && (z <? 2 ^ 8)%Z
+  else false.
+Theorem C01_int_attr_faithful k z nsmap amap : int_attr_range k z = true -> cast_attr k (decZ z) nsmap amap = Ok (AInt z).
+Proof.
+  unfold int_attr_range, cast_attr, int_attr_cast. intros H.
+  destruct (str_eqb k (lit "ValueRank")) eqn:E1.
+  { apply str_eqb_eq in E1. subst k. cbn [mem_str NODE_REF_ATTRS map]. change (mem_str (lit "ValueRank") _) with false. cbv iota.
+    rewrite py_int_decZ. f_equal. f_equal. unfold wrap_int. apply andb_true_iff in H as [H1 H2]. apply Z.leb_le in H1. apply Z.ltb_lt in H2.
+    change (2 ^ 32 / 2)%Z with (2 ^ 31)%Z.
+    destruct (Z_lt_le_dec z 0) as [Hn|Hp].
+    - assert (E : (z mod 2 ^ 32 = z + 2 ^ 32)%Z) by (symmetry; apply (Z.mod_unique_pos _ _ (-1)); lia).
+      rewrite E. destruct (Z.ltb_spec (z + 2 ^ 32) (2 ^ 31)); lia.
+    - rewrite Z.mod_small by lia. destruct (Z.ltb_spec z (2 ^ 31)); lia. }
+  destruct (str_eqb k (lit "AccessLevel")) eqn:E2.
+  { apply str_eqb_eq in E2. subst k. change (mem_str (lit "AccessLevel") _) with false. cbv iota.
+    rewrite py_int_decZ. f_equal. f_equal. unfold wrap_uint. apply andb_true_iff in H as [H1 H2]. apply Z.leb_le in H1. apply Z.ltb_lt in H2.
+    apply Z.mod_small. lia. }
+  destruct (str_eqb k (lit "EventNotifier")) eqn:E3; [|discriminate].
+  apply str_eqb_eq in E3. subst k. change (mem_str (lit "EventNotifier") _) with false. cbv iota.
+  rewrite py_int_decZ. f_equal. f_equal. unfold wrap_uint. apply andb_true_iff in H as [H1 H2]. apply Z.leb_le in H1. apply Z.ltb_lt in H2.
+  apply Z.mod_small. lia.
+Qed.
+Example C01_int_attr_example : cast_attr (lit "AccessLevel") (lit "255") [] [] = Ok (AInt 255%Z) /\ cast_attr (lit "EventNotifier") (lit "128") [] [] = Ok (AInt 128%Z).
+Proof. split; reflexivity. Qed.
+(* faithful to the code (known finding): MinimumSamplingInterval is a Duration in the schema and an Int32 column in the table *)
+Theorem C01_sampling_interval_wrap_refuted : cast_attr (lit "MinimumSamplingInterval") (lit "3000000000") [] [] = Ok (AInt (-1294967296)%Z).
 Proof. reflexivity. Qed.
